@@ -167,7 +167,7 @@ class AliasForwarder(FunctionContract):
 
     def scenarios(self):
         if self.method in ('__getitem__', '__setitem__'):
-            return ['name', 'name+label', 'name+slice']
+            return ['name', 'name+label', 'name+slice', 'name+label-spelt-like-an-alias']
         return ['name']
 
     def setup(self, interp, scenario):
@@ -188,6 +188,9 @@ class AliasForwarder(FunctionContract):
         interp.registry.set_calls({self.PARENTS[self.method]: parent})
         if scenario == 'name':
             key = SStr(name)
+        elif scenario == 'name+label-spelt-like-an-alias':
+            e['label'] = 'GDP'                 # a period label (string span) that happens to be an alias name: it stays the label it is
+            key = (SStr(name), e['label'])
         elif scenario == 'name+label':
             key = (SStr(name), e['label'])
         else:
@@ -568,12 +571,13 @@ class TraceAppend(FunctionContract):
     required_covers = ('appended', 'refused')
 
     def scenarios(self):
-        return [f'{ex}|{sh}' for ex in ('empty', 'one-column', 'three-columns') for sh in ('column', 'row', 'flat', 'matrix', 'cube', 'single')]
+        return [f'{ex}|{sh}' for ex in ('empty', 'one-column', 'three-columns') for sh in ('column', 'row', 'flat', 'matrix', 'cube', 'single')] + \
+               ['three-columns|column|label-already-in-the-index', 'one-column|flat|label-already-in-the-index']
 
     def setup(self, interp, scenario):
         import numpy as np
         from fsic.extensions.model import Trace
-        ex, sh = scenario.split('|')
+        ex, sh = scenario.split('|')[:2]
         k = 1 if sh == 'single' else 2
         cols = {'empty': 0, 'one-column': 1, 'three-columns': 3}[ex]
         existing = np.array([]) if cols == 0 else (np.arange(k * cols, dtype=float).reshape(k, cols) + 100.0)
@@ -583,6 +587,9 @@ class TraceAppend(FunctionContract):
                   'matrix': lambda: np.ones((2, 2)), 'cube': lambda: np.ones((2, 1, 1))}[sh]()
         obj = SObj(Trace, {'names': ['Y', 'C'][:k], 'index': list(index), 'values': existing.copy()}, label='trace')
         e = {'obj': obj, 'existing': existing, 'index': index, 'new': new, 'values_arg': values, 'label': object(), 'k': k, 'cols': cols, 'inputs': {}}
+        if scenario.endswith('label-already-in-the-index'):
+            # a period solved again with tracing and reset=False: its labels come round again; every snapshot is kept, in order
+            e['label'] = index[0]
         return Call([e['label'], values], {}, self_obj=obj, entry=e)
 
     def post(self, interp, scenario, call, out):
@@ -590,7 +597,7 @@ class TraceAppend(FunctionContract):
         from fsic.exceptions import DimensionError
         ctx = interp.ctx
         e = call.entry
-        ex, sh = scenario.split('|')
+        ex, sh = scenario.split('|')[:2]
         f = e['obj'].fields
         if out.kind == 'raise':
             ctx.cover('refused')
